@@ -43,7 +43,8 @@ Section TxProp.
       + bind_as Em as u0 Eu0. destruct (negb (Qcltb sv 0)); [discriminate|].
         bind_as Em as q Eq. bind_as Em as nn En. inversion Em; constructor.
       + destruct mm as [r|]; [|discriminate].
-        bind_as Em as c0 Ec0. bind_as Em as txs Et. inversion Em; subst. eapply gen_sfla_fields; eauto.
+        destruct (negb (Qcltb calc 0)); [discriminate|].
+        bind_as Em as txs Et. inversion Em; subst. eapply gen_sfla_fields; eauto.
     - destruct sp; [discriminate|]. inversion H; constructor.
   Qed.
 
